@@ -1,36 +1,46 @@
 """Re-run the checks against every kept seeded change (or the ones named) and refresh meta.json's detection record.
-usage: seedmatrix.py [--tier quick] [ids...]   -- applies each patch to /repo, runs ./check, and undoes it straight afterwards"""
-import json, os, subprocess, sys, time
+usage: seedmatrix.py [--tier quick] [ids...]
+Works on private copies so that neither /repo nor /verif's evidence/build are touched: a scratch git worktree of /repo
+(the patch is applied there, VERIF_REPO points the checks at it) and a scratch copy of /verif; both are removed at the end."""
+import json, os, shutil, subprocess, sys, time
 
 args = [a for a in sys.argv[1:] if not a.startswith('--')]
 tier = sys.argv[sys.argv.index('--tier') + 1] if '--tier' in sys.argv else 'quick'
 if '--tier' in sys.argv:
     args = [a for a in args if a != tier]
 root = '/verif/seeded'
-ids = args or sorted(os.listdir(root))
-assert subprocess.run('git -C /repo status --porcelain', shell=True, capture_output=True, text=True).stdout.strip() == '', '/repo not clean'
-for sid in ids:
-    d = os.path.join(root, sid)
-    meta = json.load(open(os.path.join(d, 'meta.json')))
-    checks = list(meta.get('detected_by') or {meta['property']: None})
-    if meta['property'] not in checks:
-        checks.insert(0, meta['property'])
-    assert subprocess.run(f'git -C /repo apply {d}/patch.diff', shell=True).returncode == 0, sid
-    res = {}
-    try:
+ids = args or sorted(d for d in os.listdir(root) if os.path.isdir(os.path.join(root, d)))
+tag = str(os.getpid())
+REPO, VERIF = f'/tmp/sm_repo_{tag}', f'/tmp/sm_verif_{tag}'
+sh = lambda c, **kw: subprocess.run(c, shell=True, text=True, **kw)
+assert sh(f'git -C /repo worktree add --detach {REPO} HEAD -q').returncode == 0
+sh(f'mkdir -p {VERIF} && rsync -a --exclude build --exclude .git --exclude replays /verif/ {VERIF}/')
+commit = sh('git -C /verif rev-parse --short HEAD', capture_output=True).stdout.strip()
+try:
+    for sid in ids:
+        d = os.path.join(root, sid)
+        meta = json.load(open(os.path.join(d, 'meta.json')))
+        checks = list(meta.get('detected_by') or {meta['property']: None})
+        if meta['property'] not in checks:
+            checks.insert(0, meta['property'])
+        sh(f'git -C {REPO} checkout -q -- . && git -C {REPO} clean -qfd')
+        assert sh(f'git -C {REPO} apply {d}/patch.diff').returncode == 0, sid
+        res = {}
         for c in checks:
             t0 = time.time()
             try:
-                p = subprocess.run(f'./check {c} --tier {tier}', cwd='/verif', shell=True, stdout=subprocess.PIPE, stderr=subprocess.STDOUT, text=True, timeout=1800)
+                p = subprocess.run(f'./check {c} --tier {tier}', cwd=VERIF, shell=True, stdout=subprocess.PIPE, stderr=subprocess.STDOUT, text=True,
+                                   timeout=2400, env=dict(os.environ, VERIF_REPO=REPO))
                 rc, out = p.returncode, p.stdout
             except subprocess.TimeoutExpired as e:
-                rc, out = 124, (e.stdout or b'').decode(errors='replace') if isinstance(e.stdout, bytes) else (e.stdout or '')
+                rc, out = 124, e.stdout.decode(errors='replace') if isinstance(e.stdout, bytes) else (e.stdout or '')
             lines = [l[:300] for l in out.splitlines() if 'failure kinds' in l or 'VIOLATION' in l or 'MACHINERY' in l]
             res[c] = {'rc': rc, 'lines': lines, 'wall_s': round(time.time() - t0)}
             print(sid, c, 'rc=%d' % rc, '%ds' % (time.time() - t0), (lines[:1] or [''])[0][:160], flush=True)
-    finally:
-        subprocess.run('git -C /repo checkout -- .', shell=True)
-    meta['detected_by'] = {c: r['rc'] == 1 for c, r in res.items()}
-    meta['check_output'] = res
-    meta['rechecked_at_verif_commit'] = subprocess.run('git -C /verif rev-parse --short HEAD', shell=True, capture_output=True, text=True).stdout.strip()
-    json.dump(meta, open(os.path.join(d, 'meta.json'), 'w'), indent=1)
+        meta['detected_by'] = {c: r['rc'] == 1 for c, r in res.items()}
+        meta['check_output'] = res
+        meta['rechecked_at_verif_commit'] = commit
+        json.dump(meta, open(os.path.join(d, 'meta.json'), 'w'), indent=1)
+finally:
+    sh(f'git -C /repo worktree remove --force {REPO}; git -C /repo worktree prune')
+    shutil.rmtree(VERIF, ignore_errors=True)
